@@ -121,6 +121,22 @@ def _mentions_known(node: ast.AST) -> bool:
     return any(isinstance(n, ast.Attribute) and n.attr == "_known" for n in ast.walk(node))
 
 
+def coarse_window(cls) -> Window:
+    """Fallback when the check-then-insert shape of ``cls.__new__`` cannot be recognised in
+    the source (the interning was refactored): the whole body of __new__ counts as the
+    window, so that 'a switch while a thread is inside __new__' is still measurable."""
+    fn = cls.__dict__["__new__"]
+    fn = getattr(fn, "__func__", fn)
+    lines, first = inspect.getsourcelines(fn)
+    tree = ast.parse(textwrap.dedent("".join(lines)))
+    body = tree.body[0].body
+    off = first - 1
+    start = body[0].lineno + off
+    end = max(getattr(n, "end_lineno", n.lineno) for n in ast.walk(tree.body[0]) if hasattr(n, "lineno")) + off
+    w = Window(cls.__name__, fn.__code__, start - 1, end, [], first, first + len(lines) - 1)
+    return w
+
+
 def find_window(cls) -> Window:
     """Locates the membership test and the insertion in ``cls.__new__`` from its source."""
     fn = cls.__dict__["__new__"]
